@@ -143,6 +143,32 @@ CLAIMS['C17'] = dict(category='proof', ref='5 Core F, 8 C17',
          "PARTIAL: the ring's own wrap/blocking is Core D; that every committed packet is well-formed MQTT is C03; that no write bypasses wmu is C18; Len()-vs-Encode() "
          "length mismatch (A2) belongs to C03.")
 
+CLAIMS['C16'] = dict(category='proof', ref='5 Core F, 8 C16',
+    text="Lean 4 theorems (17), for ALL initial buffer states, traffic, schedules of thread steps and interleaved environment events (peer closes / stops "
+         "reading / keep-alive fires / the connection a delivery is addressed to blocks / Server.Close), over a small-step model of one connection's "
+         "life-cycle at ring-call granularity (receiver, processor, sender, any number of stop() callers and of external writers; Model/Lifecycle.lean): "
+         "invariants in every reachable state (C16_invariant); at most one stop() call past the CAS, effects unsubscribe / will-if-flag / delete-if-clean "
+         "each at most once, in that order, only after the three goroutines have exited, complete at the end (C16_stop_once); an explicit natural-number "
+         "rank strictly decreases with every thread step and is never raised by the environment, so no schedule takes more than rank(s) thread steps and "
+         "fair round-robin reaches quiescence within rank(s) rounds (C16_teardown_bounded); from any reachable state in which the connection has ended "
+         "round-robin ends in the complete teardown (goroutines exited, stop returned, effects complete) unless the processor is inside a delivery held "
+         "up by a still-open connection that has stopped reading - the property's exemption, predicate HeldUp, shown necessary by C16_exemption_needed - "
+         "or the state is the F3 wedge (C16_no_deadlock_partial, C16_teardown_completes); once stop() has passed its CAS and no foreign delivery is blocked "
+         "the teardown ALWAYS completes, and Server.Close (all outgoing rings closed first, then stop) returns (C16_stop_completes, C16_server_close); "
+         "stop() never clears the ring pointers, no foreign writer dereferences nil, a delivery to a closed ring fails at once (C16_no_foreign_panic, "
+         "C16_late_delivery_fails_fast). FULL STATEMENT FALSE of the code: a packet longer than ring size - 8 KiB arriving in pieces parks receiver and "
+         "processor for good (C16_no_deadlock_counterexample - closed reachable state; C16_chunk_wedge_char; open finding F3, witness replayed on every "
+         "run). Closed counterexamples: the model wedges with the ring before 584775d (D2), a writer panics with the stop() before e79396e (F1), stop() "
+         "wedges when Wait precedes the Close calls, the sequential Server.Close before 08d14fb hangs (F6, found and repaired here). The order of stop(), its "
+         "guards, the deferred recovers, Done-then-stop, the processor loop, writeMessage's lock structure, Server.Close and the ring's lock structure are "
+         "regenerated from the source and tied by decide (C16_source_shape). Tied to the real broker by fault sequences (6 buffer conditions x 6 causes x "
+         "order of ends, raw clients that stop reading; model stream = outcome of the model under fair round-robin, line equality). PARTIAL: bounded "
+         "time = bounded number of own steps under weak fairness of the Go scheduler (trusted); socket semantics are parameters; the rings are abstracted "
+         "to call level - that contract is C15's, cited, not re-derived; one connection is modelled, the broker around it is environment; a connection "
+         "whose processor is parked in its OWN outgoing ring behind its own non-reading client is exempt by the letter of the property and is not "
+         "rescued by keep-alive (NOTES-life.md).",
+    technique='machine-checked proof in Lean 4 (invariants + termination measure of a concurrent small-step program, for all schedules) + fault-sequence correspondence on the real broker')
+
 CLAIMS['C14'] = dict(category='proof', ref='5 Core D, 8 C14',
     text="Lean 4 theorems over all thread programs and all schedules of the small-step model of service/buffer.go (one step per shared access, per byte copied): safety invariant preserved by every step; the bytes the consumer obtained are exactly the source stream prefix and lie below the producer cursor; no producer step writes a cell of the consumer's uncommitted window; model tied to the code by schedules replayed on the real buffer (yield hooks), lock-structure facts by decide",
     technique='machine-checked proof in Lean 4 (invariants of a concurrent small-step program, for all schedules) + differential correspondence of schedules on the real buffer',
